@@ -76,7 +76,7 @@ def diff_canon(a, b):
     return d
 
 
-def one_run(rng_seed, nbulk, args, rel_args=("t",), timeout=300, strace_out=None, epoch=samples.EPOCH):
+def one_run(rng_seed, nbulk, args, rel_args=("t",), timeout=300, strace_out=None, epoch=samples.EPOCH, build_root=False):
     t = fh.Tree()
     try:
         populate(t, random.Random(rng_seed), nbulk)
@@ -87,7 +87,7 @@ def one_run(rng_seed, nbulk, args, rel_args=("t",), timeout=300, strace_out=None
             p = subprocess.run(cmd, env=env, timeout=timeout, stdout=subprocess.PIPE, stderr=subprocess.STDOUT)
             rc, out = p.returncode, p.stdout.decode("utf-8", "replace")
         else:
-            rc, out = fh.run_cli(argv, epoch=epoch, timeout=timeout)
+            rc, out = fh.run_cli(argv, epoch=epoch, timeout=timeout, env_extra=({"RPM_BUILD_ROOT": t.root} if build_root else None))
         return rc, fh.parse_summary(out), canon(fh.snapshot(t.root)), out
     finally:
         t.remove()
@@ -239,6 +239,20 @@ def run(ctx):
         for n in (2, 7):
             case = "-j%d %s" % (n, " ".join(sel))
             rc, summ, state, out = one_run(seed, 60, ["-j%d" % n] + sel)
+            runs += 1
+            d = diff_canon(rstate, state)
+            if d:
+                fail("parallel-state-differs", "%s: the tree differs from the serial result: %s" % (case, "; ".join(d[:4])), case)
+            if rc != rrc or summ is None or rsum is None or any(summ[k] != rsum[k] for k in ("processed", "modified", "replaced", "rewritten", "unsupported", "errors")):
+                fail("parallel-totals-differ", "%s: exit %d summary %s; serial: exit %d summary %s" % (case, rc, summ, rrc, rsum), case)
+            table.append({"case": case, "exit": rc, "summary": summ})
+    # ---- mode options in combination: what the controller was told, every worker is told
+    for opts in (["--brp", "--check"], ["--brp"], ["--brp", "--check", "-v"]):
+        rrc, rsum, rstate, _ = one_run(seed, 60, opts, build_root=True)
+        runs += 1
+        for n in (1, 3):
+            case = "-j%d %s" % (n, " ".join(opts))
+            rc, summ, state, out = one_run(seed, 60, ["-j%d" % n] + opts, build_root=True)
             runs += 1
             d = diff_canon(rstate, state)
             if d:
